@@ -219,6 +219,7 @@ type gotFile struct {
 // server is one instance of the real middleware stack for one description.
 // It serves one request at a time (instances are pooled per description).
 type server struct {
+	cur  *Case // the case being served
 	h    http.Handler
 	cap  capture
 	resp *Resp
@@ -245,11 +246,8 @@ func paramSpec(p P) map[string]any {
 		case "jarray":
 			m["schema"] = map[string]any{"type": "array", "items": map[string]any{"type": "string"}}
 		case "text", "bytes", "jstring":
-			sch := map[string]any{"type": "string"}
-			if p.Type == "bytes" {
-				sch["format"] = "binary"
-			}
-			m["schema"] = sch
+			// one declaration for the three ways to send a string, so that one operation can consume them all
+			m["schema"] = map[string]any{"type": "string"}
 		default:
 			m["schema"] = map[string]any{"type": "object", "additionalProperties": true}
 		}
@@ -272,28 +270,109 @@ func paramSpec(p P) map[string]any {
 	return m
 }
 
-// specKey identifies the description (everything of the case that shapes the server).
+// opDecl is one operation of a description, merged from the cases that call it.
+type opDecl struct {
+	method, template   string
+	consumes, produces []string
+	params             []map[string]any
+	declared           map[string]string // name|in -> rendered declaration
+	responses          map[string]any
+}
+
+// mergeOps builds the operations of the description shared by the cases: one
+// operation per (method, template); its consumes / produces are the media types
+// of all the cases that call it (in order of first use), its parameters the
+// union of their declarations (the same name and location must be declared the
+// same way), plus the sibling operations of every case.
+func mergeOps(cases []*Case) ([]apib.Op, error) {
+	var decls []*opDecl
+	byKey := map[string]*opDecl{}
+	addTo := func(l []string, v string) []string {
+		for _, x := range l {
+			if x == v {
+				return l
+			}
+		}
+		return append(l, v)
+	}
+	for _, c := range cases {
+		if c.Base != cases[0].Base {
+			return nil, fmt.Errorf("cases of one description must share the base path")
+		}
+		key := c.Method + " " + c.Template
+		d := byKey[key]
+		if d == nil {
+			d = &opDecl{method: c.Method, template: c.Template, declared: map[string]string{}}
+			byKey[key] = d
+			decls = append(decls, d)
+		}
+		d.consumes = addTo(d.consumes, mediaType(c.Consumes))
+		d.produces = addTo(d.produces, mediaType(c.Produces))
+		ps := make([]map[string]any, 0, len(c.Params)+1)
+		for _, p := range c.Params {
+			ps = append(ps, paramSpec(p))
+		}
+		if c.Auth {
+			// the credential the auth writer adds is declared too, so the handler sees it
+			ps = append(ps, map[string]any{"name": authHeader, "in": "header", "type": "string"})
+		}
+		for _, m := range ps {
+			k := fmt.Sprint(m["name"], "|", m["in"])
+			txt, _ := json.Marshal(m)
+			if old, ok := d.declared[k]; ok {
+				if old != string(txt) {
+					return nil, fmt.Errorf("operation %s: parameter %s declared in two ways: %s / %s", key, k, old, txt)
+				}
+				continue
+			}
+			d.declared[k] = string(txt)
+			d.params = append(d.params, m)
+		}
+		if c.Resp.Mode == "plain" {
+			if d.responses == nil {
+				d.responses = map[string]any{}
+			}
+			d.responses[strconv.Itoa(c.Resp.Status)] = map[string]any{"description": "ok"}
+		}
+	}
+	var ops []apib.Op
+	for i, d := range decls {
+		id := "op"
+		if len(decls) > 1 {
+			id = fmt.Sprintf("op%d", i)
+		}
+		o := apib.Op{Method: d.method, Path: d.template, ID: id, Consumes: d.consumes, Produces: d.produces, Params: d.params, Responses: d.responses}
+		if o.Params == nil {
+			o.Params = []map[string]any{}
+		}
+		ops = append(ops, o)
+	}
+	n := 0
+	for _, c := range cases {
+		for i, sib := range c.Siblings {
+			o := siblingOp(c, i, sib)
+			if byKey[o.Method+" "+o.Path] != nil {
+				continue
+			}
+			byKey[o.Method+" "+o.Path] = &opDecl{}
+			o.ID = fmt.Sprintf("sibling%d", n)
+			n++
+			ops = append(ops, o)
+		}
+	}
+	return ops, nil
+}
+
+// specOfCases is the description shared by the cases.
+func specOfCases(cases []*Case) (apib.Spec, error) {
+	ops, err := mergeOps(cases)
+	return apib.Spec{BasePath: cases[0].Base, Ops: ops}, err
+}
+
+// specOf is the description of one case.
 func specOf(c *Case) apib.Spec {
-	op := apib.Op{Method: c.Method, Path: c.Template, ID: "op",
-		Consumes: []string{mediaType(c.Consumes)}, Produces: []string{mediaType(c.Produces)}}
-	for _, p := range c.Params {
-		op.Params = append(op.Params, paramSpec(p))
-	}
-	if c.Auth {
-		// the credential the auth writer adds is declared too, so the handler sees it
-		op.Params = append(op.Params, map[string]any{"name": authHeader, "in": "header", "type": "string"})
-	}
-	if op.Params == nil {
-		op.Params = []map[string]any{}
-	}
-	if c.Resp.Mode == "plain" {
-		op.Responses = map[string]any{strconv.Itoa(c.Resp.Status): map[string]any{"description": "ok"}}
-	}
-	ops := []apib.Op{op}
-	for i, sib := range c.Siblings {
-		ops = append(ops, siblingOp(c, i, sib))
-	}
-	return apib.Spec{BasePath: c.Base, Ops: ops}
+	sp, _ := specOfCases([]*Case{c})
+	return sp
 }
 
 func otherMethod(m string) string {
@@ -320,83 +399,97 @@ func siblingOp(c *Case, i int, sib string) apib.Op {
 // specKey identifies the description of a case.
 func specKey(c *Case) string { return string(specOf(c).JSON()) }
 
-func newServer(c *Case) (*server, error) {
-	doc, err := apib.Load(specOf(c))
+func newServer(c *Case) (*server, error) { return buildServer([]*Case{c}) }
+
+// buildServer builds one instance of the real middleware stack for the
+// description shared by the cases (see mergeOps).
+func buildServer(cases []*Case) (*server, error) {
+	sp, err := specOfCases(cases)
 	if err != nil {
-		return nil, fmt.Errorf("description does not load: %v\n%s", err, specKey(c))
+		return nil, err
+	}
+	doc, err := apib.Load(sp)
+	if err != nil {
+		return nil, fmt.Errorf("description does not load: %v\n%s", err, sp.JSON())
 	}
 	s := &server{}
 	api := untyped.NewAPI(doc)
 	// register what a generated server registers: the codecs of the media types the description names
 	// (JSON is there by default and stays the default for error bodies)
-	switch bareType(c.Consumes) {
-	case runtime.TextMime:
-		api.RegisterConsumer(runtime.TextMime, runtime.TextConsumer())
-	case runtime.DefaultMime:
-		api.RegisterConsumer(runtime.DefaultMime, runtime.ByteStreamConsumer())
-	case runtime.URLencodedFormMime:
-		api.RegisterConsumer(runtime.URLencodedFormMime, runtime.DiscardConsumer)
-	case runtime.MultipartFormMime:
-		api.RegisterConsumer(runtime.MultipartFormMime, runtime.DiscardConsumer)
-	}
-	switch bareType(c.Produces) {
-	case runtime.TextMime:
-		api.RegisterProducer(runtime.TextMime, runtime.TextProducer())
-	case runtime.DefaultMime:
-		api.RegisterProducer(runtime.DefaultMime, runtime.ByteStreamProducer())
-	}
-	var fileParams []string
-	for _, p := range c.Params {
-		if p.In == "file" {
-			fileParams = append(fileParams, p.Name)
+	for _, c := range cases {
+		switch bareType(c.Consumes) {
+		case runtime.TextMime:
+			api.RegisterConsumer(runtime.TextMime, runtime.TextConsumer())
+		case runtime.DefaultMime:
+			api.RegisterConsumer(runtime.DefaultMime, runtime.ByteStreamConsumer())
+		case runtime.URLencodedFormMime:
+			api.RegisterConsumer(runtime.URLencodedFormMime, runtime.DiscardConsumer)
+		case runtime.MultipartFormMime:
+			api.RegisterConsumer(runtime.MultipartFormMime, runtime.DiscardConsumer)
+		}
+		switch bareType(c.Produces) {
+		case runtime.TextMime:
+			api.RegisterProducer(runtime.TextMime, runtime.TextProducer())
+		case runtime.DefaultMime:
+			api.RegisterProducer(runtime.DefaultMime, runtime.ByteStreamProducer())
 		}
 	}
-	api.RegisterOperation(c.Method, c.Template, runtime.OperationHandlerFunc(func(params interface{}) (interface{}, error) {
-		s.cap.calls++
-		m, _ := params.(map[string]interface{})
-		s.cap.params = m
-		for _, n := range fileParams {
-			gf := gotFile{}
-			if f, ok := m[n].(runtime.File); ok && f.Data != nil {
-				b, err := io.ReadAll(f.Data)
-				if err != nil {
-					gf.err = err.Error()
-				}
-				gf.content = b
-				if f.Header != nil {
-					gf.name = f.Header.Filename
-				}
-			} else {
-				gf.err = fmt.Sprintf("not a file: %T", m[n])
-			}
-			if s.cap.files == nil {
-				s.cap.files = map[string]gotFile{}
-			}
-			s.cap.files[n] = gf
-		}
-		switch s.resp.Mode {
-		case "plain":
-			payload, _, err := respPayload(s.resp)
-			if err != nil {
-				s.perr = err
-			}
-			return payload, nil
-		case "error":
-			return nil, errors.New(int32(s.resp.Status), "%s", string(s.resp.Text))
-		}
-		return middleware.ResponderFunc(s.respond), nil
-	}))
-	for i, sib := range c.Siblings {
-		o := siblingOp(c, i, sib)
-		id := o.Method + " " + o.Path
-		api.RegisterOperation(o.Method, o.Path, runtime.OperationHandlerFunc(func(interface{}) (interface{}, error) {
-			s.cap.wrong = append(s.cap.wrong, id)
-			return map[string]any{"wrong": id}, nil
+	for _, o := range sp.Ops {
+		key := o.Method + " " + o.Path
+		api.RegisterOperation(o.Method, o.Path, runtime.OperationHandlerFunc(func(params interface{}) (interface{}, error) {
+			return s.handle(key, params)
 		}))
 	}
 	ctx := middleware.NewContext(doc, api, nil)
 	s.h = ctx.APIHandler(nil)
 	return s, nil
+}
+
+// handle is the operation handler of every operation of the description: it
+// records what it was given when it is the operation the current case calls,
+// and that it ran when it is another one.
+func (s *server) handle(key string, params interface{}) (interface{}, error) {
+	if s.cur == nil || key != s.cur.Method+" "+s.cur.Template {
+		s.cap.wrong = append(s.cap.wrong, key)
+		return map[string]any{"wrong": key}, nil
+	}
+	s.cap.calls++
+	m, _ := params.(map[string]interface{})
+	s.cap.params = m
+	for _, p := range s.cur.Params {
+		if p.In != "file" {
+			continue
+		}
+		n := p.Name
+		gf := gotFile{}
+		if f, ok := m[n].(runtime.File); ok && f.Data != nil {
+			b, err := io.ReadAll(f.Data)
+			if err != nil {
+				gf.err = err.Error()
+			}
+			gf.content = b
+			if f.Header != nil {
+				gf.name = f.Header.Filename
+			}
+		} else {
+			gf.err = fmt.Sprintf("not a file: %T", m[n])
+		}
+		if s.cap.files == nil {
+			s.cap.files = map[string]gotFile{}
+		}
+		s.cap.files[n] = gf
+	}
+	switch s.resp.Mode {
+	case "plain":
+		payload, _, err := respPayload(s.resp)
+		if err != nil {
+			s.perr = err
+		}
+		return payload, nil
+	case "error":
+		return nil, errors.New(int32(s.resp.Status), "%s", string(s.resp.Text))
+	}
+	return middleware.ResponderFunc(s.respond), nil
 }
 
 // respond is the handler's Responder: status, headers and body of the case.
@@ -479,9 +572,8 @@ func (w *wire) RoundTrip(req *http.Request) (*http.Response, error) {
 			}()
 			w.s.h.ServeHTTP(rec, sreq)
 		}()
-		if sreq.MultipartForm != nil {
-			_ = sreq.MultipartForm.RemoveAll()
-		}
+		// (a form spilled to disk lives in the process's own TMPDIR, see ownTempDir: the middleware parses
+		// the form on a copy of the request, so it cannot be removed from here)
 	}
 	res := rec.Result()
 	w.status = res.StatusCode
@@ -601,18 +693,39 @@ type result struct {
 	panicked  string
 }
 
-// execute performs the round trip of the case on the real code, against a
-// server built from the case's description (s; it serves one request at a time).
-func execute(s *server, c *Case) (res result, herr error) {
+// clientSide is one client.Runtime; its transport hands every request to the
+// wire of the round trip in progress.
+type clientSide struct {
+	rt *client.Runtime
+	tr *relay
+}
+
+type relay struct{ w *wire }
+
+func (r *relay) RoundTrip(req *http.Request) (*http.Response, error) { return r.w.RoundTrip(req) }
+
+func newClientSide(base string) *clientSide {
+	cl := &clientSide{rt: client.New("verif.test", base, []string{"http"}), tr: &relay{}}
+	cl.rt.Transport = cl.tr
+	cl.rt.Debug = false // whatever SWAGGER_DEBUG / DEBUG say in the environment
+	return cl
+}
+
+// execute performs the round trip of the case on the real code: client side cl
+// (nil: a new Runtime) against server s, whose description contains the
+// operation of the case (s serves one request at a time).
+func execute(s *server, cl *clientSide, c *Case) (res result, herr error) {
 	s.cap = capture{}
 	s.perr = nil
+	s.cur = c
 	s.resp = &c.Resp
 	w := &wire{s: s}
 	res.w = w
-
-	rt := client.New("verif.test", c.Base, []string{"http"})
-	rt.Transport = w
-	rt.Debug = false // whatever SWAGGER_DEBUG / DEBUG say in the environment
+	if cl == nil {
+		cl = newClientSide(c.Base)
+	}
+	cl.tr.w = w
+	rt := cl.rt
 	writer := runtime.ClientRequestWriterFunc(func(req runtime.ClientRequest, _ strfmt.Registry) error {
 		// generated code sets the operation's timeout here; 0 = none, so that no verdict depends on the clock
 		if err := req.SetTimeout(0); err != nil {
